@@ -320,5 +320,34 @@ def evalCat (cat : Cat) (solves : List (String × Solve)) (d : α) (args : List 
       | _ => .error .other
     | _, _, _ => .error .other
 
+/-! ### `matrix()` / `matrix_row()` around the two dispatches (src/interpreter/src/structures.rs; read by hand) -/
+
+/-- `matrix_row()`: every entry must have the height of the first; then `MatrixHorzCat` is compiled and solved -/
+def evalRow (horz : Cat) (solves : List (String × Solve)) (d : α) : List (Operand α) → Except Err (Mat α)
+  | [] => .error .other
+  | a :: as =>
+    if as.all (fun x => (blockOf x).rows == (blockOf a).rows) then evalCat impl horz solves d (a :: as)
+    else .error .dim
+
+def evalRows (horz : Cat) (solves : List (String × Solve)) (d : α) : List (List (Operand α)) → Except Err (List (Mat α))
+  | [] => .ok []
+  | r :: rs =>
+    match evalRow impl horz solves d r with
+    | .error e => .error e
+    | .ok m =>
+      match evalRows horz solves d rs with
+      | .error e => .error e
+      | .ok ms => .ok (m :: ms)
+
+/-- `matrix()`: the rows one by one; every row must have the width of the first; a single row is the result, several
+    go to `MatrixVertCat` -/
+def evalLit (horz vert : Cat) (solves : List (String × Solve)) (d : α) (rows : List (List (Operand α))) : Except Err (Mat α) :=
+  match evalRows impl horz solves d rows with
+  | .error e => .error e
+  | .ok [] => .error .other
+  | .ok [m] => .ok m
+  | .ok (m :: ms) =>
+    if ms.all (fun x => x.cols == m.cols) then evalCat impl vert solves d ((m :: ms).map .mat) else .error .dim
+
 end sem
 end MechVerif.ConcatIR
